@@ -47,12 +47,28 @@ func init() {
 
 // Sizes merges a check's own size list with n-1, n, n+1 for every harvested integer n in
 // [lo, hi] (a limit written in the code is met exactly, from both sides).
-func Sizes(own []int, lo, hi int) []int {
+func Sizes(own []int, lo, hi int) []int { return sizes(own, lo, hi, false) }
+
+// SizesWithProducts also takes the sums and products of two harvested integers (constant
+// expressions such as 2*maxColumnNameLen are limits too); meant for cheap dimensions like the
+// length of one string.
+func SizesWithProducts(own []int, lo, hi int) []int { return sizes(own, lo, hi, true) }
+
+func sizes(own []int, lo, hi int, pairs bool) []int {
 	set := map[int]bool{}
 	for _, n := range own {
 		set[n] = true
 	}
-	for _, n := range HarvestInts {
+	base := append([]int{}, HarvestInts...)
+	if pairs && len(HarvestInts) <= 40 {
+		// constant expressions such as 2*maxColumnNameLen are limits too
+		for i, a := range HarvestInts {
+			for _, b := range HarvestInts[i:] {
+				base = append(base, a*b, a+b)
+			}
+		}
+	}
+	for _, n := range base {
 		for _, m := range []int{n - 1, n, n + 1} {
 			if m >= lo && m <= hi {
 				set[m] = true
